@@ -128,7 +128,8 @@ def mvccStep (d : MvccSt) (toks : List String) : MvccSt × String :=
     if d.configured then (d, "bad-op") else
     match argOf rest "cmp", argOf rest "mem", natArg rest "writers" with
     | some c, some m, some n =>
-      if (c == "plain" || c == "kv") && (m == "go" || m == "mm") && 1 ≤ n && n ≤ 16 then
+      -- `plainv`: like `plain`, the harness encodes keys with variable length (order preserving); same model
+      if (c == "plain" || c == "kv" || c == "plainv") && (m == "go" || m == "mm") && 1 ≤ n && n ≤ 16 then
         ({ configured := true, kv := c == "kv", st := Mvcc.init n }, "ok")
       else (d, "bad-op")
     | _, _, _ => (d, "bad-op")
